@@ -151,7 +151,7 @@ def generate_variant(name, spec, common):
     dst = os.path.join(HARNESS, "gen", name)
     tmp = tempfile.mkdtemp(prefix="gen-%s-" % name, dir=OUTDIR)
     try:
-        cmd = [os.path.join(BIN, "generator"), "-path=" + CORPUS, "-package_name=" + name,
+        cmd = [os.path.join(BIN, "generator"), "-path=" + CORPUS, "-package_name=" + spec.get("package", name),
                "-output_file=" + os.path.join(tmp, name + ".go")] + common + spec.get("flags", [])
         if spec.get("path_structs"):
             cmd += ["-generate_path_structs", "-path_structs_output_file=" + os.path.join(tmp, name + "_path.go")]
